@@ -77,6 +77,15 @@ def read_client(ds, desc, np):
                                            for r in cell))
                 rows.append(tuple(cells))
             out[vid] = tuple(rows)
+            # an inner sequence is a variable, too: read on its own it delivers, per record of the outer one, its records
+            for c in d[2]:
+                if c[0] != "base":
+                    try:
+                        out[vid + "." + c[1]] = tuple(
+                            tuple(tuple(G.bits(cc[2], tostr(x) if cc[2] == "S" else x) for cc, x in zip(c[2], r)) for r in cell)
+                            for cell in obj[c[1]].iterdata())
+                    except Exception as e:  # noqa
+                        out[vid + "." + c[1]] = "raised " + repr(e)[:200]
     return out
 
 
@@ -87,6 +96,9 @@ def source(desc):
             out[vid] = G.canon_base(d)
         else:
             out[vid] = G.canon_rows(d)
+            for j, c in enumerate(d[2]):
+                if c[0] != "base":
+                    out[vid + "." + c[1]] = tuple(row[j] for row in out[vid])
     return out
 
 
